@@ -178,3 +178,84 @@ Theorem C06_alternatives_routes_are_emitted_by_code : forall d s p acc egr rs to
   exists p' bestdep js, r = emit d p' bestdep js /\ forall tmp, r = emit_code d p' bestdep js tmp.
 Proof. exact alternatives_emit_is_code. Qed.
 Print Assumptions C06_alternatives_routes_are_emitted_by_code.
+
+(* tie to the source, the RENDERER: every `json["key"] = result.member;` of getSingleResultJsonString and of the three
+   visit functions of StepToV2Visitor (result_to_v2.cpp) is read AS IT IS NOW by tools/gen_render.py (gen/Render.v: the
+   key and the member that feeds it, in source order) and executed by the interpreter of RenderJson.v with the semantics
+   of nlohmann::json objects (std::map: sorted keys, last writer wins).  The route OBJECT on the wire is the model's
+   record under the documented keys - a swapped pair of keys, a dropped key, a key fed from another member breaks these *)
+Require Coq.Strings.String.
+Require TrV.RenderJson TrV.gen.Render.
+From TrV Require Proofs.RenderTie.
+Module RJ.
+  Import Coq.Strings.String TrV.RenderJson TrV.Proofs.RenderTie.
+  Import ListNotations.
+  Local Open Scope string_scope.
+  Local Open Scope list_scope.
+  Local Open Scope Z_scope.
+  Definition gen_steps : step_tables :=
+    {| tb_walk := GR.gen_render_walk; tb_board := GR.gen_render_board; tb_unboard := GR.gen_render_unboard |}.
+  Theorem C06_json_route_object_is_code : forall r, json_of_route r = render_route gen_steps GR.gen_render_route r.
+  Proof. exact route_tie. Qed.
+  Theorem C06_json_totals_are_code : forall r,
+    let j := render_route gen_steps GR.gen_render_route r in
+    jnum "totalTravelTime" j = Some (rt_ttt r) /\
+    jnum "totalInVehicleTime" j = Some (rt_tivt r) /\
+    jnum "totalWaitingTime" j = Some (rt_twait r) /\
+    jnum "firstWaitingTime" j = Some (rt_fwait r) /\
+    jnum "transferWaitingTime" j = Some (rt_trwait r) /\
+    jnum "totalNonTransitTravelTime" j = Some (rt_tnt r) /\
+    jnum "accessTravelTime" j = Some (rt_acc r) /\
+    jnum "egressTravelTime" j = Some (rt_egr r) /\
+    jnum "transferWalkingTime" j = Some (rt_trwalk r) /\
+    jnum "numberOfBoardings" j = Some (rt_nboard r) /\
+    jnum "numberOfTransfers" j = Some (rt_ntransf r) /\
+    jnum "departureTime" j = Some (rt_dep r) /\
+    jnum "arrivalTime" j = Some (rt_arr r) /\
+    jnum "totalDistance" j = Some (rt_tdist r) /\
+    jnum "totalInVehicleDistance" j = Some (rt_tivd r) /\
+    jnum "totalNonTransitDistance" j = Some (rt_tntd r) /\
+    jnum "transferWalkingDistance" j = Some (rt_trdist r) /\
+    jnum "accessDistance" j = Some (rt_accd r) /\
+    jnum "egressDistance" j = Some (rt_egrd r) /\
+    jget "steps" j = Some (JArr (map (render_step gen_steps) (rt_steps r))) /\
+    NoDup (jkeys j) /\
+    jkeys j = ["accessDistance"; "accessTravelTime"; "arrivalTime"; "departureTime"; "egressDistance"; "egressTravelTime";
+               "firstWaitingTime"; "numberOfBoardings"; "numberOfTransfers"; "steps"; "totalDistance"; "totalInVehicleDistance";
+               "totalInVehicleTime"; "totalNonTransitDistance"; "totalNonTransitTravelTime"; "totalTravelTime"; "totalWaitingTime";
+               "transferWaitingTime"; "transferWalkingDistance"; "transferWalkingTime"].
+  Proof. exact json_totals_are_route_totals. Qed.
+  (* C06 ON THE WIRE FORMAT (RenderJson.json_C06_ok): between the NUMBERS FOUND UNDER THE JSON KEYS of the rendered route
+     object - totalTravelTime = arrivalTime - departureTime, totalWaitingTime = firstWaitingTime + transferWaitingTime,
+     totalInVehicleTime / totalWaitingTime = the sums of "inVehicleTime" / "waitingTime" over the objects of "steps",
+     totalTravelTime = the sum of every step's "travelTime", "inVehicleTime" and "waitingTime", and (no line of mode
+     'transferable') totalNonTransitTravelTime, numberOfBoardings = number of step objects with action "boarding",
+     numberOfTransfers = numberOfBoardings - 1 - for every route with consistent totals, hence for every answer *)
+  Theorem C06_json_identities_of_totals : forall d p r, totals_ok_b d p r = true ->
+    json_C06_ok d r (render_route gen_steps GR.gen_render_route r).
+  Proof. exact json_C06_identities. Qed.
+  Theorem C06_json_identities : forall d s p acc egr fresh r used,
+    wf_data_b d = true -> wf_tables_b d p acc egr = true -> wf_params_b p = true ->
+    calc_single d (conn_set d s) p acc egr fresh = Ok (r, used) ->
+    json_C06_ok d r (render_route gen_steps GR.gen_render_route r).
+  Proof. exact json_C06_identities_single. Qed.
+  Theorem C06_json_identities_alternatives : forall d s p acc egr rs total,
+    wf_data_b d = true -> wf_tables_b d p acc egr = true -> wf_params_b p = true ->
+    alternatives d (conn_set d s) p acc egr = Ok (rs, total) ->
+    forall r, In r rs -> json_C06_ok d r (render_route gen_steps GR.gen_render_route r).
+  Proof. exact json_C06_identities_alternatives. Qed.
+  (* non-vacuity: the example answer's JSON has totalTravelTime under its key and the identities hold of it *)
+  Example C06_json_example :
+    match answer_route ex_data scen_all (ex_params true 35000) ex_acc ex_egr with
+    | Ok (r, _) => jnum "totalTravelTime" (render_route gen_steps GR.gen_render_route r) = Some (rt_arr r - rt_dep r) /\
+                   jsum "inVehicleTime" (map (render_step gen_steps) (rt_steps r)) = rt_tivt r /\ 0 < rt_tivt r
+    | _ => False
+    end.
+  Proof. vm_compute. repeat split; reflexivity. Qed.
+End RJ.
+Print Assumptions RJ.C06_json_route_object_is_code.
+Print Assumptions RJ.C06_json_totals_are_code.
+Print Assumptions RJ.C06_json_identities_of_totals.
+Print Assumptions RJ.C06_json_identities.
+Print Assumptions RJ.C06_json_identities_alternatives.
+Print Assumptions RJ.C06_json_example.
